@@ -403,3 +403,42 @@ func vh_C07_reqserver_type_mutated() {
 	}
 	vEmit("got", got)
 }
+
+// ---- lazily parsed attribute blocks: OPEN, SETSTAT and FSETSTAT carry their
+// attributes undecoded past makePacket; a block that is too short for the flags
+// it announces is a malformed packet all the same and must not be acted upon:
+// no os call, a failure status (added after seeded change C07-f)
+func vh_C07_server_short_attrs() {
+	vErrKinds = 0
+	vEnvReset()
+	flags := vNondetU32()
+	attrs := vNondetBytesC(9)
+	id := vNondetU32()
+	_, _, derr := unmarshalFileStat(flags, attrs)
+	svr := vNewServer(false, "")
+	svr.openFiles["1"] = &vMFile{name: "/o"}
+	svr.handleCount = 1
+	var pkt requestPacket
+	k := vChoice(3)
+	switch k {
+	case 0:
+		pkt = &sshFxpOpenPacket{ID: id, Path: "/f", Pflags: sshFxfWrite | sshFxfCreat, Flags: flags, Attrs: attrs}
+	case 1:
+		pkt = &sshFxpSetstatPacket{ID: id, Path: "/f", Flags: flags, Attrs: attrs}
+	default:
+		pkt = &sshFxpFsetstatPacket{ID: id, Handle: "1", Flags: flags, Attrs: attrs}
+	}
+	r, _, err := vWorkerStep(svr, pkt)
+	vAssert(err == nil, "worker continues")
+	b := vRespBytes(r)
+	code, isStatus := vStatusCode(b)
+	needs := flags&(sshFileXferAttrSize|sshFileXferAttrUIDGID|sshFileXferAttrPermissions|sshFileXferAttrACmodTime) != 0
+	if k == 0 {
+		needs = flags&sshFileXferAttrPermissions != 0 // OPEN looks at the block only for the permissions
+	}
+	if derr != nil && needs {
+		vAssert(vMutations == 0 && vWriteOpen == 0 && len(vEnvLog) == 0, "a request whose attribute block is too short for its flags is not acted upon")
+		vAssert(isStatus && code != sshFxOk, "and is answered with a failure status")
+	}
+	vEmit("k", k)
+}
